@@ -14,7 +14,8 @@ CLAIMED = {
     "C02": ("Partial. Theorems (props/C02.v): the statement is REFUTED for the faithful model by three vm_compute witnesses (D1 shift "
             "promotion, D2 logical results, D13 comparison promotion), the repaired model translates them correctly; the type rules used "
             "by every operator are proved equal to the C11 table for all widths (regenerated from ValueType.py). The general operator "
-            "theorem for the repaired model on pure expressions is proofs/ExprCorrect.v when present. Per run: K2 ties model and code on "
+            "theorem (proofs/ExprCorrect.v) covers, for the repaired model, every side-effect-free expression over literals, locals, register operands (sources, read-write, "
+            "pairs, destinations read back, .new) and immediates; C02_operators_correct_partial gives it for the faithful configuration under a decidable guard. Per run: K2 ties model and code on "
             "the exhaustive depth-1 operator x type x type matrix + random trees; the differential oracle (C semantics vs RzIL semantics of "
             "the real output, in Coq) decides every in-guard program.", "model + theorems + refutation witnesses; correspondence K2; differential oracle"),
     "C03": ("Partial. REFUTED for the faithful model (D3 widening fill bit; ?: arm conversion), witnesses by vm_compute; repaired model "
@@ -26,8 +27,9 @@ CLAIMED = {
             "related state ends in the state ISO C prescribes; the fresh-name premise is exact (D29). REFUTED for the faithful model (D19/D21 division and "
             "remainder), positive instances for loops by vm_compute. Per run: K2 on 11 assignment operators x targets x types and generated statement sequences; "
             "differential oracle over states driving both arms and several trip counts.", "model + refutation witnesses; K2; differential oracle"),
-    "C06": ("Partial. Clause 'temporaries are written before they are read': the must-analysis da_effect is evaluated in Coq on every real output (proofs/TmpDef.v); "
-            "theorems C06_definite_assignment_is_preserved / C06_temporaries_written_before_read give its meaning for every effect and state. REFUTED (D4: a value-producing operation whose value is unused at top level is hoisted to the front), with the model's "
+    "C06": ("Partial. Clause 'temporaries are written before they are read': the syntactic must-analysis tdefS (sem/TmpCheck.v) is evaluated in Coq on every real output; "
+            "theorems C06_temporaries_written_before_read (non-interference) / C06_stale_temporaries_are_irrelevant give its meaning for every effect, state and fuel. "
+            "Known construct class D32 (side effect in an unselected ?: arm is executed). REFUTED (D4: a value-producing operation whose value is unused at top level is hoisted to the front), with the model's "
             "own bookkeeping (leftover count) as explanation; positive instances for postfix, statement-expression and ?: arm. Per run: K2 on "
             "hybrid placements; differential oracle inside the guard.", "model + refutation witnesses; K2; differential oracle"),
     "C07": ("Partial (architectural table and plugin contract are trusted, T4). Theorem C07_operand_binding: for EVERY ISA operand spelling of the finite grammar (4 classes x 17 "
@@ -70,10 +72,12 @@ CLAIMED = {
             "get_meta and reset sets REGENERATED from HexagonExtensions.py / RZILTransformer.py / Compiler.py; attrs_history proves independence of every "
             "compilation history (after the fix: commit for D9). K4 ties model/Meta.v to the code on random histories (two Compiler instances, failing inputs).",
             "Coq proof over regenerated tables + structural induction; correspondence K4 on histories"),
-    "C14": ("Partial. Obligations over the regenerated field/call tables: the only holder field that survives reset() is hybrid_op_count; reset_flags clears "
-            "every field get_meta reads; every entry point resets on every exit path (after the fix: commit for D10). K-hist: random histories with failing "
-            "inputs, two instances, both entry points, each step compared with a fresh process up to renaming of h_tmpN. Not proved: that the counter's only "
-            "influence on the model is that renaming (tested).", "Coq obligations over regenerated tables; history correspondence K-hist"),
+    "C14": ("THEOREM C14_counter_shift_is_a_renaming / C14_history_independent_model (proofs/HShift.v): for every configuration, every start value n of the hybrid counter "
+            "(the only holder field that survives reset) and every program that does not spell an identifier h_tmp<digits>, the whole transformer model gives the same verdict "
+            "and the same effect up to renaming h_tmp<k> -> h_tmp<k+n> (side condition necessary: D33, replayed). Obligations over the regenerated field/call tables: the only "
+            "holder field that survives reset() is hybrid_op_count; reset_flags clears every field get_meta reads; every entry point resets on every exit path (after the fix for D10). "
+            "K-hist ties model and code: random histories with failing inputs, two instances, both entry points, each step compared with a fresh process up to renaming of h_tmpN.",
+            "Coq proof over the whole transformer model + obligations over regenerated tables; history correspondence K-hist"),
     "C15": ("THEOREMS for ALL programs and every configuration with the reject switch on (= the tree after the fix commit): C15_unsupported_rejected_everywhere "
             "(a construct of the unsupported list at ANY depth - blocks, branches, loop parts, statement-expressions, ?: arms, call/macro/load/store arguments, casts, "
             "initialisers - is rejected) and C15_translated_or_rejected (an accepted program has nothing discarded, except a bare string-literal statement), "
